@@ -1,15 +1,18 @@
 (* Model of codegen/src/buildscript.rs: Compile::run / run_on_single_file over
    an abstract file system (one grammar file, one destination), and the
-   histories of C18.  `hdr` (generate_source_header: version, build time and
-   CRC of the grammar text), `compile` (Grammar::from_str + generate_code,
-   None on error) and `fmt` (rustfmt) are parameters. *)
+   histories of C18.  `hdr g p` (generate_source_header of the grammar text -
+   version, build time, CRC of the text - followed by generate_prefix_header of
+   the prefix - its CRC), `compile` (Grammar::from_str + generate_code, None on
+   error) and `fmt` (rustfmt) are parameters.  `run_old` is the algorithm before
+   the repair (the header named only the grammar; the up-to-date test compared
+   header + prefix text): kept to state what was wrong with it. *)
 From Coq Require Import Lia.
 From PegV Require Import Utf8.
 
 Definition text := list N.
 
 Section BS.
-Variable hdr : text -> text.
+Variable hdr : text -> text -> text.
 Variable compile : text -> option text.
 Variable fmt : text -> text.
 
@@ -21,9 +24,11 @@ Record fs := { gfile : option text;      (* None: the grammar file cannot be rea
 
 Record conf := { prefix : text; format : bool }.
 
-Definition source_header (c : conf) (g : text) : text := hdr g ++ NL ++ prefix c.
+Definition source_header (c : conf) (g : text) : text := hdr g (prefix c).
+Definition content (c : conf) (g : text) (code : text) : text :=
+  source_header c g ++ NL ++ prefix c ++ NL ++ code.
 Definition output (c : conf) (g : text) (code : text) : text :=
-  let content := source_header c g ++ NL ++ code in if format c then fmt content else content.
+  if format c then fmt (content c g code) else content c g code.
 
 Fixpoint text_eqb (a b : text) : bool :=
   match a, b with
@@ -72,11 +77,43 @@ Definition step (cs : conf * fs) (o : op) : conf * fs :=
 
 Definition exec (ops : list op) (cs : conf * fs) : conf * fs := fold_left step ops cs.
 
-(* what the property calls "the compilation of the grammar file as it is now" *)
+(* what the property calls "the compilation of the grammar file as it is now (header,
+   prefix, code)" - whether or not rustfmt went over it *)
 Definition fresh (c : conf) (s : fs) : Prop :=
   match gfile s with
-  | Some g => match compile g with Some code => dest s = Some (output c g code) | None => True end
+  | Some g =>
+    match compile g with
+    | Some code => dest s = Some (content c g code) \/ dest s = Some (fmt (content c g code))
+    | None => True
+    end
   | None => True
+  end.
+
+(* the destination, if there is one, was written by an earlier run *)
+Definition produced (s : fs) : Prop :=
+  match dest s with
+  | None => True
+  | Some d => exists c g code, compile g = Some code /\ d = output c g code
+  end.
+
+(* ---- the algorithm before the repair -------------------------------------------- *)
+Variable hdr_old : text -> text.
+Definition source_header_old (c : conf) (g : text) : text := hdr_old g ++ NL ++ prefix c.
+Definition output_old (c : conf) (g : text) (code : text) : text := source_header_old c g ++ NL ++ code.
+Definition up_to_date_old (c : conf) (g : text) (d : text) : bool :=
+  text_eqb (source_header_old c g) (firstn (length (source_header_old c g)) d).
+Definition run_old (c : conf) (s : fs) : res * fs :=
+  match gfile s with
+  | None => (RErr, s)
+  | Some g =>
+    if match dest s with Some d => up_to_date_old c g d | None => false end
+    then (ROk, s)
+    else
+      match compile g with
+      | None => (RErr, s)
+      | Some code =>
+        (ROk, {| gfile := gfile s; dest := Some (output_old c g code); writes := S (writes s) |})
+      end
   end.
 
 End BS.
